@@ -339,6 +339,12 @@ def doCGTopics (msS tsS : String) : String :=
   if names.isEmpty then "-" else
   ";".intercalate (names.map (fun n => s!"{n}:{",".intercalate ((partsOf topics (tb.t n)).map toString)}"))
 
+/-- `lchain kind ms ts plan kind ms ts plan …`: plans of one long-lived strategy value; the model is per Plan call, so
+    every step is judged like a `vplan sticky` line -/
+def doLChain : List String → List String
+  | kind :: ms :: ts :: plan :: rest => doVPlan "sticky" kind ms ts plan :: doLChain rest
+  | _ => []
+
 def step (_ : Unit) (t : List String) : Unit × String :=
   match t with
   | ["rangecore", n, m, rs] => ((), doRangeCore (nat! n) (nat! m) (natList rs))
@@ -355,6 +361,7 @@ def step (_ : Unit) (t : List String) : Unit × String :=
   | ["moves", c, sc] => ((), doMoves c sc)
   | ["f12", v] => ((), doF12 v)
   | ["cgtopics", ms, ts] => ((), doCGTopics ms ts)
+  | "lchain" :: rest => ((), " | ".intercalate (doLChain rest))
   | _ => ((), "bad-op")
 
 end Model.Balance.Line
